@@ -360,7 +360,7 @@ func runQuery(dir string, q *Query, timeout time.Duration, wantModel bool) Verdi
 	if primaryTO > 3*time.Second {
 		primaryTO = 3 * time.Second
 	}
-	if !race(solvers[1:2], primaryTO) {
+	if !race(solvers[1:2], primaryTO) && !q.Cover {
 		race([]solverSpec{solvers[0], solvers[2], solvers[1]}, timeout)
 	}
 	v.Secs = total
